@@ -100,6 +100,7 @@ impl Violation {
 
 thread_local! {
     static LAST_PANIC: RefCell<Option<String>> = const { RefCell::new(None) };
+    static GUARD_DEPTH: std::cell::Cell<u32> = const { std::cell::Cell::new(0) };
 }
 
 pub fn install_panic_hook() {
@@ -136,6 +137,10 @@ pub fn install_panic_hook() {
         } else {
             loc
         };
+        // a panic outside every guarded case would end the process silently: say where it came from
+        if GUARD_DEPTH.try_with(|d| d.get()).unwrap_or(0) == 0 {
+            eprintln!("MACHINERY: panic outside a guarded case at {loc}: {msg}\n{}", std::backtrace::Backtrace::force_capture());
+        }
         let _ = LAST_PANIC.try_with(|c| *c.borrow_mut() = Some(format!("{loc}: {msg}")));
     }));
 }
@@ -150,7 +155,10 @@ pub fn take_last_panic() -> String {
 
 /// Runs `f`, returns Err(location: message) if it panicked.
 pub fn guarded<R>(f: impl FnOnce() -> R) -> Result<R, String> {
-    match catch_unwind(AssertUnwindSafe(f)) {
+    let _ = GUARD_DEPTH.try_with(|d| d.set(d.get() + 1));
+    let r = catch_unwind(AssertUnwindSafe(f));
+    let _ = GUARD_DEPTH.try_with(|d| d.set(d.get().saturating_sub(1)));
+    match r {
         Ok(r) => Ok(r),
         Err(_) => Err(take_last_panic()),
     }
@@ -1079,6 +1087,12 @@ impl Run {
         *c += unique;
         let c = self.report.counters.entry("stateright_next_state_calls".into()).or_default();
         *c += calls;
+        // a state that fails an invariant is reported and not merged by the own explorer, so the two engines only have
+        // to agree when the run is free of violations (the verdict is then decided by the violations, not by the counts)
+        if self.report.violations_total > 0 {
+            self.note(format!("stateright cross-check of {group}: counts not compared because the run has violations"));
+            return;
+        }
         assert!(unique == own.states && calls == own.transitions, "MACHINERY: stateright and the own explorer disagree on {group}: unique {unique} vs {}, calls {calls} vs {}", own.states, own.transitions);
     }
 }
